@@ -49,5 +49,5 @@ impl Span {
 /// core::task::Context<'_>: opaque; only forwarded to poll functions of the models.
 #[verifier::external_body] pub struct TaskCx { _p: u8 }
 /// the transport's error type C::Error / Box<dyn Error>: opaque.
-#[verifier::external_body] pub struct TErr { _p: u8 }
+#[verifier::external_body] #[derive(Debug)] pub struct TErr { _p: u8 }
 pub assume_specification<T> [core::mem::drop::<T>] (t: T);
